@@ -88,8 +88,10 @@ PROPS = {
                 tags=[r'^msg-parse$', r'^msg-bytes$', r'^burn-parse$', r'^burn-bytes$'],
                 ops=[('msg-parse', ''), ('msg-bytes', ''), ('burn-parse', ''), ('burn-bytes', '')]),
     'C17': dict(level='proof', scenarios=[('genesis', 2500, 30000, ''), ('history', 1500, 15000, 'export'), ('bulk', 300, 3000, '')],
-                tags=[r'^genesis-validate$', r'^genesis-init$', r'^genesis-export(:.*)?$', r'^genesis-default$', r'^after:genesis-init:.*$', r'^roundtrip$'],
-                ops=[('genesis-validate', ''), ('genesis-init', ''), ('genesis-export', ''), ('genesis-default', '')]),
+                tags=[r'^genesis-validate$', r'^genesis-init$', r'^genesis-export(:.*)?$', r'^after:genesis-init:.*$', r'^roundtrip$'],
+                # genesis-default is NOT a comparison key: what the default genesis contains is governed by no property; the ops
+                # that follow it (validate, init, export, re-import) take the implementation's own default as their input
+                ops=[('genesis-validate', ''), ('genesis-init', ''), ('genesis-export', '')]),
     'C18': dict(level='other', scenarios=[('history', 3000, 20000, '')],
                 tags=[r'.*'],
                 ops=[('tx', None), ('query', None)],
